@@ -304,6 +304,24 @@ fn run_spec(spec: &Spec) -> Value {
         soft: vec![],
     };
     let sizes = json!({"sols": u.sols.len(), "vss": u.vss.len(), "unions": u.unions.len(), "pkgs": u.pkgs.len()});
+    // the order in which the capture queries the provider: four captures, each with hash containers of its own
+    // (ahash seeds differ per container), must query the provider in the same order
+    let mut capture_orders: Vec<Vec<Value>> = vec![];
+    for _ in 0..4 {
+        let prov = Prov::new(u.clone());
+        let log = prov.log.clone();
+        let _ = catch_unwind(AssertUnwindSafe(|| {
+            DependencySnapshot::from_provider(
+                prov,
+                spec.seeds.names.iter().map(|&n| NameId(n)),
+                spec.seeds.vss.iter().map(|&v| VersionSetId(v)),
+                spec.seeds.sols.iter().map(|&s| SolvableId(s)),
+            )
+        }));
+        capture_orders.push(log.borrow().iter().map(|c| serde_json::to_value(c).unwrap()).collect());
+    }
+    let capture_order_stable = capture_orders.iter().all(|o| *o == capture_orders[0]);
+    let capture_order_other = capture_orders.iter().find(|o| **o != capture_orders[0]).cloned();
     let cap = catch_unwind(AssertUnwindSafe(|| {
         DependencySnapshot::from_provider(
             Prov::new(u.clone()),
@@ -366,6 +384,8 @@ fn run_spec(spec: &Spec) -> Value {
         "spec": spec, "sizes": sizes, "capture": "ok", "snapshot": canon,
         "hi": hi, "p": p, "p_live": p_live, "add_names": add_names,
         "live": live, "direct": direct, "rt": rt, "rt_equal": rt_equal, "json_bytes": text.len(),
+        "capture_order_stable": capture_order_stable,
+        "capture_order": if capture_order_stable { Value::Null } else { json!([capture_orders[0], capture_order_other]) },
     })
 }
 
